@@ -7,7 +7,7 @@ from ..astx import un, NoValue, call_name
 from ..absint import Obj, Unk, PyFunc, ClassRef
 from ..core import rule, fixture_for, Unknown
 from ..symenv import make_interp, rep_algebra, mv_obj, Val, val_repr
-from ..callsites import ENTRY_POINTS, Scenario, run_entry, expected, tname
+from ..callsites import ENTRY_POINTS, Scenario, run_entry, expected, tname, tok
 
 INFO = {
     "id": "C12",
@@ -25,7 +25,7 @@ INFO = {
                    "coefficients are sympified on construction. NOT decided: that sympy's simplifier returns zero only for "
                    "identically-zero expressions and that generated arithmetic is a ring homomorphism on sympy objects.",
     "decided": ["C02.call-pairing", "C06.filter", "C06.filter-sites", "C12.binding-order", "C12.sympify",
-                "C09.by-name-twin", "C12.simp-func", "C12.issymbolic", "C08.emitted-source"],
+                "C09.by-name-twin", "C12.simp-func", "C12.issymbolic", "C08.emitted-source", "C12.filter-history"],
     "not_decided": ["sympy.simplify / expand exactness", "generated arithmetic over sympy objects vs numbers"],
     "assumptions": ["the same generated function evaluated on numbers or on sympy expressions computes the same polynomial"],
 }
@@ -96,7 +96,7 @@ def call_pairing(ctx):
 
 
 # --------------------------------------------------------------------------- binding order
-@rule("C12.binding-order", props=["C12"], min_instances=4, mutants=[
+@rule("C12.binding-order", props=["C12", "C18"], min_instances=4, mutants=[
     ("keyword arguments in reverse name order", ("multivector", "args = [v for k, v in sorted(kwargs.items(), key=lambda x: x[0])]", "args = [v for k, v in sorted(kwargs.items(), key=lambda x: x[0], reverse=True)]")),
     ("keyword arguments in call order", ("multivector", "args = [v for k, v in sorted(kwargs.items(), key=lambda x: x[0])]", "args = [v for k, v in kwargs.items()]")),
     ("free symbols unsorted", ("codegen", "args={'x': sorted(mv.free_symbols, key=lambda x: x.name)},", "args={'x': list(mv.free_symbols)},")),
@@ -203,6 +203,62 @@ def sympify_rule(ctx):
 
 
 # --------------------------------------------------------------------------- which coefficients count as symbolic
+@rule("C12.filter-history", props=["C12", "C06", "C09"], min_instances=3, mutants=[
+    ("blades that cancelled once are remembered as structural zeros of the key pattern", [
+        ("operator_dict", "    operator_dict: dict = field(default_factory=dict, init=False)\n", "    operator_dict: dict = field(default_factory=dict, init=False)\n    known_zeros: dict = field(default_factory=dict, init=False, repr=False)\n"),
+        ("operator_dict", "        keysvalues = tuple((k, simpv) for k, v in zip(keys_out, values_out) if (simpv := self.algebra.simp_func(v)))\n        keys, values = zip(*keysvalues) if keysvalues else (tuple(), list())",
+                          "        zeros = self.known_zeros.setdefault(tuple(keys_out), set())\n        keysvalues = tuple((k, simpv) for k, v in zip(keys_out, values_out) if k not in zeros and (simpv := self.algebra.simp_func(v)))\n        keys, values = zip(*keysvalues) if keysvalues else (tuple(), list())\n        zeros.update(set(keys_out) - set(keys))")]),
+])
+def filter_history(ctx):
+    """The automatic simplification of a symbolic result is a function of THIS result only: each symbolic entry point is
+    run twice on one operator-dictionary object (real entry point and real filter, interpreted from source) with the
+    same key patterns - first with coefficients for which one blade cancels, then with coefficients for which nothing
+    cancels - and the second result must keep every blade."""
+    repo = ctx.repo
+    for q, (kind, n) in ENTRY_POINTS.items():
+        if kind == "Registry":
+            continue
+        fn = ctx.func(q)
+        c = f"{q}#zero-filter history"
+        keys_out = (1, 2, 4)
+        rounds = [["P1", "ZERO", "P3"], ["Q1", "Q2", "Q3"]]
+        state = {"round": 0}
+
+        def sym(name):
+            return Obj("Symbol", {"fmt": name, "name": name})
+
+        def simp_func(v):
+            return 0 if str(v) == "ZERO" else v
+        func = Obj("function", {"__name__": "FN", "fmt": "<FN>"}, call=lambda *a: [sym(x) for x in rounds[state["round"]]])
+        alg = Obj("algebra", {"wrapper": None, "simp_func": Obj("simp_func", call=simp_func), "numspace": {}, "codegen_symbolcls": None, "fmt": "ALG"})
+        alg.methods["compare"] = lambda op, other, alg=alg: (other is alg) if op == "Eq" else (other is not alg) if op == "NotEq" else Unk("cmp")
+        me = Obj(kind, {"algebra": alg, "name": "op", "codegen": tok("CODEGEN"), "operator_dict": {}}, {}, getitem=lambda key: (keys_out, func))
+        it = make_interp(repo)
+        it.instance_classes.update({"OperatorDict": "operator_dict.OperatorDict", "UnaryOperatorDict": "operator_dict.UnaryOperatorDict"})
+        results = []
+        try:
+            for r in range(2):
+                state["round"] = r
+                ops = [Obj("MultiVector", {"algebra": alg, "_keys": (1 + i, 2 + i), "_values": [sym(f"a{r}{i}"), sym(f"b{r}{i}")], "issymbolic": True})
+                       for i in range(n)]
+                out = it.run(q, [me] + ops)
+                if out[0] == "raise" or not (isinstance(out[1], Obj) and out[1].kind == "MultiVector"):
+                    results.append(out)
+                else:
+                    results.append((tuple(out[1].attrs.get("_keys", ())), [str(v) for v in out[1].attrs.get("_values", [])]))
+        except NoValue as exc:
+            raise Unknown(c, str(exc), fn)
+        want = [((1, 4), ["P1", "P3"]), ((1, 2, 4), ["Q1", "Q2", "Q3"])]
+        if results == want:
+            ctx.ok(c, fn, rounds=2)
+        elif results[:1] != want[:1]:
+            ctx.violation(c, f"a symbolic result with coefficients {rounds[0]} is filtered to {results[0]!r}, expected {want[0]}", fn)
+        else:
+            ctx.violation(c, f"after a call in which the coefficient of blade 2 cancelled, a second call with the same key patterns whose "
+                             f"coefficients {rounds[1]} do not cancel returns {results[1]!r}, expected {want[1]}: a blade is dropped although "
+                             f"its coefficient is not identically zero", fn)
+
+
 VALUE_PRESERVING = {"simplify", "expand", "factor", "cancel", "together", "collect", "trigsimp", "radsimp", "ratsimp", "expand_mul",
                     "expand_trig", "expand_complex", "apart", "nsimplify", "sympify", "S", "Float", "Rational"}
 ASSUMING = {"posify": "replaces symbols by positive ones", "refine": "simplifies under assumptions",
